@@ -54,6 +54,10 @@ structure NdSparse (α : Type) where
 def NdSparse.get (s : NdSparse α) (idx : List Nat) : α :=
   s.entries.foldr (fun e acc => if e.1 = idx then A.add e.2 acc else acc) A.zero
 
+/-- number of list entries at an index tuple: the number of terms `get` adds up there -/
+def NdSparse.nlisted (s : NdSparse α) (idx : List Nat) : Nat :=
+  s.entries.foldr (fun e n => if e.1 = idx then n + 1 else n) 0
+
 structure Mat (α : Type) where
   nrow : Nat
   ncol : Nat
@@ -150,6 +154,14 @@ def gridLoop : List (Dim α) → List (List α) → Nat → NdSparse α → Opti
     | none => none
     | some nd' => gridLoop ds xss (i+1) nd'
   | _, _, _, _ => none
+
+/-- number of roundings every term `coef · Π_d B_d` of a grid value has gone through when the chain of
+slice multiplications is done: per dimension `5·order` in the recursive `bspline()` (each level: one
+subtraction from / of `x`, one product, one knot difference, one quotient, one sum) and one for the
+product with the basis value (`grideval_rounding` in Proofs/GlamRound.lean) -/
+def gridRoundCount : List (Dim α) → Nat
+  | [] => 0
+  | d :: ds => 5 * d.order + 1 + gridRoundCount ds
 
 /-- `splinetable::grideval(coords)` (with repair C17-2: an all-zero table yields an empty result instead
 of the exception "Tried to allocate an ndsparse with 0 entries"); `none` = an exception: wrong number of
